@@ -19,7 +19,7 @@ CHECKS = {
 
 CHECKS["C10"] = dict(
     engine="tlc+controlled-scheduler",
-    technique="TLA+ channel semantics (GoChan) as judge: outcome sets from TLC (GoChanProg) + TLC trace validation (GoChanTrace) of histories from the real z_chan.go driven through all interleavings by a controlled scheduler; PlusCal ChanImpl model-checked against GoChan",
+    technique="TLA+ channel semantics (GoChan) as judge: outcome sets from TLC (GoChanProg) + TLC trace validation (GoChanTrace) of histories from the real z_chan.go driven through all interleavings by a controlled scheduler; PlusCal ChanImpl (whole z_chan.go incl. TrySelect/Select, selectOp semaphores, send-first rule) model-checked against GoChan on every scenario",
     text="The real z_chan.go (copied from the working tree, imports redirected to scheduler gates) is executed under every interleaving at "
          "lock/wait/signal granularity (exhaustive DFS for ~95% of ~270 scenarios, preemption-bounded DFS with spurious wake-ups, seeded random), "
          "and every outcome and distinct API-level history must be a behaviour of the TLA+ channel semantics, including legal-deadlock analysis "
@@ -30,7 +30,7 @@ CHECKS["C10"] = dict(
 
 CHECKS["C11"] = dict(
     engine="tlc+controlled-scheduler+compiled-programs",
-    technique="TLA+ semaphore/notify-list contracts (GoSync) as judge: outcome sets (GoSyncProg) + TLC trace validation (GoSyncTrace) of histories from the real sema_llgo.go under a controlled scheduler with atomics as scheduling points; llgo-compiled sync/atomic/go-statement stress programs",
+    technique="TLA+ semaphore/notify-list contracts (GoSync) as judge: outcome sets (GoSyncProg) + TLC trace validation (GoSyncTrace) of histories from the real sema_llgo.go under a controlled scheduler with atomics as scheduling points; llgo-compiled sync/atomic/go-statement stress programs; Go's Mutex, RWMutex, WaitGroup and Once algorithms (compiled unchanged by llgo) model-checked over the semaphore contract (PlusCal)",
     text="The real sema_llgo.go (copied from the working tree, psync/latomic redirected to scheduler gates) is driven through all interleavings "
          "at lock/wait/signal/atomic granularity for ~120 scenarios and every outcome/history must satisfy the TLA+ contracts (units conserved, "
          "no lost wake-up, Wait returns only for a notified ticket). Go statements, Mutex/RWMutex/WaitGroup/Once/Cond and atomics of all widths "
@@ -40,8 +40,10 @@ CHECKS["C11"] = dict(
 
 CHECKS["C04"] = dict(
     engine="tlc-gomachine+llgo",
-    technique="TLA+ abstract machine for core Go (GoMachine: frames, deferred-call lists, panic/recover/Goexit modes) interpreted by TLC gives the predicted trace of each generated program; llgo-compiled programs must print exactly that trace; reference toolchain self-validates the machine",
-    text="Seeded programs combining unconditional / conditional / loop defers, deferred closures that change named results, recover (directly), "
+    technique="TLA+ abstract machine for core Go (GoMachine: frames, deferred-call lists, panic/recover/Goexit modes) interpreted by TLC gives the predicted trace of each generated program; llgo-compiled programs must print exactly that trace; reference toolchain self-validates the machine; DeferImpl (layer B: llgo's bit set + node list + drain loops) model-checked against Go's rule, every behaviour of every function body of up to 4 statements replayed into llgo-compiled code",
+    text="DeferImpl: 1,554 function bodies over {defer with/without arguments on the straight path, the same inside a branch, loop of defers, call that may panic}, 13,499 behaviours, "
+         "each replayed in a non-inlined llgo-compiled function and compared with the calls Go prescribes (exhaustive within the bound; the two pre-fix designs are refuted by TLC on every run). "
+         "Seeded programs combining unconditional / conditional / loop defers, deferred closures that change named results, recover (directly), "
          "panics and re-panics inside deferred calls, run-time faults, early returns and Goexit in goroutines are run by the TLA+ machine (TLC) "
          "and by llgo-compiled code; traces and termination must agree. Fixed representative programs pin the two known deviations.",
     note="trusts GoMachine's transcription of the spec and the Python lowering to its jump code, both self-validated against the reference toolchain on every case; O2 = reduced pipeline O2*",
